@@ -87,6 +87,11 @@ def specs(rng, tier, wid, nw, env):
                 if k % nw == wid: yield ('repro', g, sd, rng.getrandbits(48))
                 k += 1
                 if k % nw == wid: yield ('copy', g, sd, rng.getrandbits(48))
+    # a copy taken after exactly k 32-bit words have been consumed, for every k across two Mersenne Twister buffer refills
+    for g in ('mt', 'default'):
+        for kk in (range(0, 1300) if q else range(0, 2600)):
+            k += 1
+            if k % nw == wid: yield ('copyat', g, kk, rng.choice(SEEDS), rng.getrandbits(48))
     shapes = [('urandomb', 64), ('urandomb', 1), ('urandomb', 32), ('urandomb', 100), ('urandomb', 8), ('ui_b', 64), ('ui_b', 17), ('urandomm', 7), ('urandomm', 1000), ('urandomm', (1 << 64) - 59), ('urandomm', 3 << 62), ('urandomm', (1 << 33) + 1), ('ui_m', 10), ('mpf', 64), ('lchalf', 0), ('mpn_b', 128)]
     for g in GENS:
         for sh in shapes:
@@ -165,6 +170,24 @@ def build(spec, env):
                     out.append(('%s:%s-sequences-differ' % (kind, g.split(':')[0]), 'gen=%s seed=%s at request %s: %s vs %s' % (g, hx(sd), lab, a[0][:40], b[0][:40]))); break
             return out
         return Case(cmds, check, 2 * len(pairs), (kind, g, sd.bit_length(), n1))
+    if kind == 'copyat':
+        _, g, kk, sd, _s = spec
+        cmds = gen_init(r, g, 0) + seed_cmds(r, 0, sd)
+        if kk:
+            if r.random() < 0.7: cmds.append('c mpz_urandomb Z1 R0 #%d' % (32 * kk))
+            else:
+                a_ = r.randint(0, kk); cmds += ['c mpz_urandomb Z1 R0 #%d' % (32 * a_)] if a_ else []
+                cmds += ['c gmp_urandomb_ui R0 #32'] * min(kk - a_, 40)
+                if kk - a_ > 40: cmds.append('c mpz_urandomb Z1 R0 #%d' % (32 * (kk - a_ - 40)))
+        cmds.append('c gmp_randinit_set R1 R0')
+        pairs = []
+        for one in ('c gmp_urandomb_ui R%d #32', 'c mpz_urandomb Z2 R%d #64', 'c gmp_urandomb_ui R%d #17', 'c mpz_urandomb Z2 R%d #20000', 'c mpz_urandomb Z2 R%d #33'):
+            cmds.append(one % 0); ia = len(cmds) - 1; cmds.append(one % 1); pairs.append((ia, len(cmds) - 1))
+        def check(rep, pairs=pairs, kk=kk, g=g):
+            for ia, ib in pairs:
+                a, _ = split_reply(rep[ia]); b, _ = split_reply(rep[ib])
+                if a != b: return [('copy:%s-sequences-differ' % g, 'gen=%s seed=%s copy taken after %d 32-bit words: %s vs %s' % (g, hx(sd), kk, a[0][:40], b[0][:40]))]
+        return Case(cmds, check, len(pairs) * 2, ('copyat', g, kk))
     if kind == 'battery':
         _, g, shape, par, sd, _s = spec
         N = 1 << 15 if env.tier == 'quick' else 1 << 17
